@@ -62,32 +62,33 @@ Proof.
   assert (Hmsg : zlen msg = hl + zlen P + zlen pad) by (unfold msg; rewrite !zlen_app; lia).
   replace (H' ++ P ++ pad ++ s) with (msg ++ s) by (unfold msg; rewrite <- !app_assoc; reflexivity).
   rewrite zlen_app. replace (zlen msg + zlen s - a_rsig R) with (zlen msg) by lia.
+  replace (zlen msg + zlen s <? hl + a_rsig R) with false by (symmetry; apply Z.ltb_ge; destruct extra; lia).
   replace ((zlen msg <? 0) || (a_rsig R <? 0)) with false
     by (symmetry; apply orb_false_iff; pose proof (zlen_nonneg msg); split; lia).
   rewrite zdrop_app_exact, ztake_app_exact by reflexivity.
   unfold msg at 1. rewrite Hver. cbn [negb].
-  replace (zlen msg <? 1) with false by (symmetry; apply Z.ltb_ge; destruct extra; lia).
+  replace (zlen msg <? hl + (if extra then 2 else 1)) with false by (symmetry; apply Z.ltb_ge; destruct extra; lia).
+  replace (zlen msg <? (if extra then 2 else 1)) with false by (symmetry; apply Z.ltb_ge; destruct extra; lia).
   assert (Hlast : forall k, 0 <= k < zlen pad -> znth (hl + zlen P + k) msg = znth k pad).
   { intros k Hk. unfold msg. rewrite znth_app_r by lia. rewrite znth_app_r by lia. f_equal. lia. }
   destruct extra eqn:Ex.
-  - replace (zlen msg <? 2) with false by (symmetry; apply Z.ltb_ge; lia).
-    replace (zlen msg - 1) with (hl + zlen P + (n + 1)) by lia.
+  - replace (zlen msg - 1) with (hl + zlen P + (n + 1)) by lia.
     replace (zlen msg - 2) with (hl + zlen P + n) by lia.
     rewrite !Hlast by lia. unfold pad.
     destruct (pad_string_last_extra n ltac:(lia)) as [E1 E2]. rewrite E1, E2, !zb_b8.
     rewrite Z.shiftr_div_pow2 by lia. change (2 ^ 8) with 256.
     assert (Hv : n / 256 mod 256 * 256 + n mod 256 + 1 + 1 = n + 2) by lia.
     rewrite Hv.
-    replace ((hl <? 0) || (zlen msg - (n + 2) <? hl)) with false
-      by (symmetry; apply orb_false_iff; split; lia).
+    replace (zlen msg - (n + 2) <? hl) with false by (symmetry; apply Z.ltb_ge; lia).
+    replace (hl <? 0) with false by (symmetry; apply Z.ltb_ge; lia).
     replace (zlen msg - (n + 2)) with (zlen (H' ++ P)) by (rewrite zlen_app; lia).
     unfold msg. rewrite app_assoc, ztake_app_exact by reflexivity.
     rewrite zdrop_app_exact by exact HH. reflexivity.
   - replace (zlen msg - 1) with (hl + zlen P + n) by lia.
     rewrite Hlast by lia. unfold pad. rewrite pad_string_last_noextra by lia. rewrite zb_b8.
     rewrite Z.mod_small by lia.
-    replace ((hl <? 0) || (zlen msg - (n + 1) <? hl)) with false
-      by (symmetry; apply orb_false_iff; split; lia).
+    replace (zlen msg - (n + 1) <? hl) with false by (symmetry; apply Z.ltb_ge; lia).
+    replace (hl <? 0) with false by (symmetry; apply Z.ltb_ge; lia).
     replace (zlen msg - (n + 1)) with (zlen (H' ++ P)) by (rewrite zlen_app; lia).
     unfold msg. rewrite app_assoc, ztake_app_exact by reflexivity.
     rewrite zdrop_app_exact by exact HH. reflexivity.
@@ -102,12 +103,14 @@ Proof.
   pose proof (zlen_nonneg P) as HP0. pose proof (zlen_nonneg s) as Hs0.
   rewrite app_assoc. rewrite zlen_app.
   replace (zlen (H' ++ P) + zlen s - a_rsig R) with (zlen (H' ++ P)) by lia.
+  replace (zlen (H' ++ P) + zlen s <? hl + a_rsig R) with false
+    by (symmetry; apply Z.ltb_ge; rewrite zlen_app; lia).
   replace ((zlen (H' ++ P) <? 0) || (a_rsig R <? 0)) with false
     by (symmetry; apply orb_false_iff; pose proof (zlen_nonneg (H' ++ P)); split; lia).
   rewrite zdrop_app_exact, ztake_app_exact by reflexivity.
   rewrite Hver. cbn [negb]. rewrite Z.sub_0_r.
-  replace ((hl <? 0) || (zlen (H' ++ P) <? hl)) with false
-    by (symmetry; apply orb_false_iff; rewrite zlen_app; split; lia).
+  replace (zlen (H' ++ P) <? hl) with false by (symmetry; apply Z.ltb_ge; rewrite zlen_app; lia).
+  replace (hl <? 0) with false by (symmetry; apply Z.ltb_ge; lia).
   rewrite ztake_all by lia. rewrite zdrop_app_exact by exact HH. reflexivity.
 Qed.
 
